@@ -422,6 +422,114 @@ def primitive_vertices(ptree, fn_name, var, fname, branch_test=None):
     return f"(fun s => [{verts}]) {scale}"
 
 
+# ------------------------------------------------------------------ containment dispatch (_contains_shape of the three classes)
+def _loop_rule(stmts, fname):
+    """recognise one block of a `_contains_shape` body; returns the CRule constructor name"""
+    src = [ast.unparse(s) for s in stmts]
+    if len(stmts) == 1 and isinstance(stmts[0], ast.Return):
+        v = stmts[0].value
+        if isinstance(v, ast.Call) and isinstance(v.func, ast.Attribute) and v.func.attr.endswith("__contains_simple") \
+                and ast.unparse(v.func.value) == "self" and [ast.unparse(a) for a in v.args] == ["other"]:
+            return "leaf"
+        raise Unsupported(f"unsupported return {src[0][:60]} at {where(stmts[0], fname)}")
+    pre = []
+    while stmts and isinstance(stmts[0], ast.Assign):
+        pre.append(stmts[0])
+        stmts = stmts[1:]
+    if len(stmts) != 2 or not isinstance(stmts[0], ast.For) or not isinstance(stmts[1], ast.Return):
+        raise Unsupported(f"unsupported containment block at {where(stmts[0] if stmts else pre[0], fname)}")
+    loop, final = stmts
+    if loop.orelse or len(loop.body) != 1 or not isinstance(loop.body[0], ast.If) or loop.body[0].orelse \
+            or len(loop.body[0].body) != 1 or not isinstance(loop.body[0].body[0], ast.Return):
+        raise Unsupported(f"unsupported containment loop at {where(loop, fname)}")
+    var = ast.unparse(loop.target)
+    over = ast.unparse(loop.iter)
+    test = loop.body[0].test
+    early = loop.body[0].body[0].value
+    if not (isinstance(early, ast.Constant) and isinstance(final.value, ast.Constant)):
+        raise Unsupported(f"non-constant returns at {where(loop, fname)}")
+    early, last = early.value, final.value.value
+    negated = False
+    t = test
+    if isinstance(t, ast.UnaryOp) and isinstance(t.op, ast.Not):
+        t, negated = t.operand, True
+    # normalise the membership test to (inner, outer): "inner in outer"
+    if isinstance(t, ast.Compare) and len(t.ops) == 1 and isinstance(t.ops[0], (ast.In, ast.NotIn)):
+        inner, outer = ast.unparse(t.left), ast.unparse(t.comparators[0])
+        if isinstance(t.ops[0], ast.NotIn):
+            negated = not negated
+    elif isinstance(t, ast.Call) and isinstance(t.func, ast.Attribute) and t.func.attr == "contains_shape" and len(t.args) == 1:
+        inner, outer = ast.unparse(t.args[0]), ast.unparse(t.func.value)
+    else:
+        raise Unsupported(f"unsupported containment test {ast.unparse(test)[:60]} at {where(loop, fname)}")
+    is_all = negated and early is False and last is True       # if not (…): return False ; return True
+    is_any = (not negated) and early is True and last is False  # if …: return True ; return False
+    if not (is_all or is_any):
+        raise Unsupported(f"loop is neither all nor any at {where(loop, fname)}")
+    if not pre:
+        if over == "self.subshapes" and (inner, outer) == ("other", var):
+            return "allSelf" if is_all else "anySelf"
+        if over == "other.subshapes" and (inner, outer) == (var, "self") and is_all:
+            return "allOther"
+    elif len(pre) == 1 and ast.unparse(pre[0].value) == "~self" and over == "other.subshapes" and is_any:
+        inv = ast.unparse(pre[0].targets[0])
+        if (inner, outer) == (inv, f"~{var}"):
+            return "anyComplOther"
+    raise Unsupported(f"unrecognised containment loop at {where(loop, fname)}")
+
+
+def contain_rules(tree, fname):
+    """table (self kind, other kind) -> CRule from the three `_contains_shape` bodies"""
+    kinds = {"SimpleShape": "simple", "ConnectedShape": "connected", "DisjointShape": "disjoint"}
+    rows = []
+    for clsname, ks in kinds.items():
+        fn = find_func(find_class(tree, clsname), "_contains_shape")
+        if fn is None:
+            raise Unsupported(f"{clsname}._contains_shape not found")
+        body = body_wo_doc(fn)
+        remaining = list(kinds.values())
+        i = 0
+        while i < len(body):
+            st = body[i]
+            if isinstance(st, ast.If) and isinstance(st.test, ast.Call) and getattr(st.test.func, "id", None) == "isinstance" \
+                    and ast.unparse(st.test.args[0]) == "other" and not st.orelse:
+                c = st.test.args[1]
+                names = [c.id] if isinstance(c, ast.Name) else [e.id for e in c.elts]
+                rule = _loop_rule(list(st.body), fname)
+                for n in names:
+                    if n not in kinds:
+                        raise Unsupported(f"unknown class {n} at {where(st, fname)}")
+                    if kinds[n] in remaining:
+                        rows.append((ks, kinds[n], rule))
+                        remaining.remove(kinds[n])
+                i += 1
+                continue
+            rule = _loop_rule(body[i:], fname)
+            for ko in remaining:
+                rows.append((ks, ko, rule))
+            remaining = []
+            break
+    lines = [f"  | .{a}, .{b} => some .{r}" for a, b, r in rows]
+    if len(rows) < 9:
+        lines.append("  | _, _ => none")
+    return "\n".join(lines)
+
+
+def contains_shape_head(tree, fname):
+    """DefinedShape.contains_shape: `if isinstance(other, EmptyShape): return True; if isinstance(other, WholeShape): return False; return self._contains_shape(other)`"""
+    fn = find_func(find_class(tree, "DefinedShape"), "contains_shape")
+    body = body_wo_doc(fn)
+    got = {}
+    for st in body[:-1]:
+        if not (isinstance(st, ast.If) and ast.unparse(st.test) in ("isinstance(other, EmptyShape)", "isinstance(other, WholeShape)")
+                and len(st.body) == 1 and isinstance(st.body[0], ast.Return) and isinstance(st.body[0].value, ast.Constant)):
+            raise Unsupported(f"unsupported head of contains_shape at {where(st, fname)}")
+        got["Empty" if "Empty" in ast.unparse(st.test) else "Whole"] = st.body[0].value.value
+    if ast.unparse(body[-1]) != "return self._contains_shape(other)" or set(got) != {"Empty", "Whole"}:
+        raise Unsupported(f"unsupported tail of contains_shape at {where(body[-1], fname)}")
+    return ("true" if got["Empty"] else "false"), ("true" if got["Whole"] else "false")
+
+
 # ------------------------------------------------------------------ numeric literals
 def literal_consts(srcdir):
     """(name, value-as-Fraction) for the tolerance literals the properties mention"""
@@ -581,10 +689,26 @@ def regenerate(srcdir, gendir):
         out2.append(f"-- primitives: NOT TRANSLATED ({e!r})\n")
     out2.append("\nend ShapeVerif.Gen\n")
     ch2 = write_if_changed(os.path.join(gendir, "Tables.lean"), "".join(out2))
+    out4 = [HEADER, "import ShapeVerif.Model.Contain\nset_option linter.unusedVariables false\n\nnamespace ShapeVerif.Gen\nopen ShapeVerif\n"]
+    try:
+        tbl = contain_rules(tree, "shape.py")
+        e, w = contains_shape_head(tree, "shape.py")
+        out4.append("/-- which loop `<self kind>._contains_shape(other)` runs for each kind of `other` -/\n")
+        out4.append("def containRule : CKind → CKind → Option CRule\n" + tbl + "\n")
+        out4.append("/-- `DefinedShape.contains_shape`: answers for `other` Empty / Whole before the dispatch -/\n")
+        out4.append(f"def containsEmptyAnswer : Bool := {e}\ndef containsWholeAnswer : Bool := {w}\n")
+    except Unsupported as e:
+        msgs.append(f"containRule: unsupported construct: {e}")
+        out4.append(f"-- containRule: NOT TRANSLATED ({e})\n")
+    except Exception as e:
+        msgs.append(f"containRule: translator error {e!r}")
+        out4.append(f"-- containRule: NOT TRANSLATED ({e!r})\n")
+    out4.append("\nend ShapeVerif.Gen\n")
+    ch4 = write_if_changed(os.path.join(gendir, "Contain.lean"), "".join(out4))
     from harness import translate_arith
     src3, msgs3 = translate_arith.regenerate(srcdir)
     msgs += msgs3
     ch3 = write_if_changed(os.path.join(gendir, "Arith.lean"), src3)
     if msgs:
         return False, "; ".join(msgs)
-    return True, f"translated 19 table units and {src3.count(chr(10) + 'def ')} arithmetic units from shape.py, plot.py, polygon.py, jordancurve.py, curve.py (changed: {ch1 or ch2 or ch3})"
+    return True, f"translated 21 table units and {src3.count(chr(10) + 'def ')} arithmetic units from shape.py, plot.py, polygon.py, jordancurve.py, curve.py (changed: {ch1 or ch2 or ch3 or ch4})"
